@@ -57,6 +57,32 @@ LOOPS = [
 ]
 PRE = "let a = [0, 1]; fn f(x) { x }\n"
 
+# function bodies that leave through `return` from statement positions and from operand positions with operands
+# pending in the callee: the caller's statement must be balanced however the callee returns
+RET_BODIES = [
+    "\"item-\" + if {C} {{ return \"skip\"; }} else {{ \"x\" }}",
+    "f(if {C} {{ return 1; }} else {{ 3 }})",
+    "[1, 2, if {C} {{ return 1; }} else {{ 3 }}]",
+    "map {{1: if {C} {{ return 1; }} else {{ 2 }}}}",
+    "a[if {C} {{ return 0; }} else {{ 0 }}]",
+    "1 + match i {{ 0 => 1, _ => {{ if {C} {{ return 9; }} 2 }} }}",
+    "let q = 5 * (1 + if {C} {{ return 1; }} else {{ 2 }}); q",
+    "f(1 + (2 * if {C} {{ return 1; }} else {{ 1 }}))",
+    "let j = 0; while j < 3 {{ j = j + 1; if {C} {{ return j; }} }} j",
+    "let j = 0; while j < 3 {{ j = j + 1; let w = 1 + if {C} {{ return j; }} else {{ 2 }}; }} j",
+    "if {C} {{ return 1; }} 2",
+    "match i % 3 {{ 0 => {{ return 1; }}, _ => 2 }}",
+    "i > 0 && (if {C} {{ return true; }} else {{ true }})",
+    "if {C} {{ return; }} 2",
+    "[1, [2, if {C} {{ return; }} else {{ 3 }}]]",
+]
+RET_CALLERS = [
+    ("let", "let i = 0; while i < {N} {{ i = i + 1; let l = g(i); }}"),
+    ("stmt", "let i = 0; while i < {N} {{ i = i + 1; g(i); }}"),
+    ("operand", "let i = 0; let t = 0; while i < {N} {{ i = i + 1; t = [1, g(i)]; }}"),
+    ("in-fn", "fn run() {{ let i = 0; while i < {N} {{ i = i + 1; let l = g(i); }} i }} run(); run();"),
+]
+
 
 def run(chk):
     rng = chk.rng
@@ -85,6 +111,15 @@ def run(chk):
                             body = st.format(C=c, K=k)
                             src = PRE + ltmpl.format(N=n, BODY=body) + "\nlet done = 1;\n1 + 1;\n"
                             jobs.append(((lname, "dirty" if dirty else "clean", si, k, n), src, dirty))
+    for bi, body in enumerate(RET_BODIES):
+        for (cname, ctmpl) in RET_CALLERS:
+            conds = COND if not quick else rng.sample(COND, 2)
+            for c in conds:
+                for n in iters:
+                    if quick and n == 10000 and rng.random() < 0.6:
+                        continue
+                    src = PRE + "fn g(i) { " + body.format(C=c) + " }\n" + ctmpl.format(N=n) + "\nlet done = 1;\n1 + 1;\n"
+                    jobs.append((("return-" + cname, "clean", 100 + bi, "return", n), src, False))
     # recursion-free generated programs (loops scaled up)
     gjobs = []
     n_gen = 1500 if quick else 60000
